@@ -2247,8 +2247,21 @@ def n_int_pow(ex, callee, a, env):
     signed, width = int_info(m.group(1))
     op = m.group(2)
     base, e = deref(a[0]), deref(a[1])
-    e = ex.concretize(e, 0, 130)
     lo, hi = (-(1 << (width - 1)), (1 << (width - 1)) - 1) if signed else (0, (1 << width) - 1)
+    if is_sym(e) and isinstance(base, int) and abs(base) >= 2:
+        # every exponent above the last one that fits behaves alike (overflow): one class instead of a concretisation range
+        emax = 0
+        while lo <= base ** (emax + 1) <= hi:
+            emax += 1
+        if ex.truth(z3.UGT(e, emax)):
+            if op == 'pow':
+                raise Panic('attempt to multiply with overflow')
+            if op == 'checked_pow':
+                return NONE()
+            raise Unsupported(f'{op} with a large symbolic exponent')
+        e = ex.concretize(e, 0, emax)
+    else:
+        e = ex.concretize(e, 0, 130)
     if isinstance(base, int):
         r = base ** e
         fits = lo <= r <= hi
